@@ -66,7 +66,29 @@ def statement_form(s):
     return s
 
 
+def _dup_tail_return(ifnode, ret):
+    """append a copy of `ret` to every branch of the if / elif / else chain that can fall out of it; True when no path falls out afterwards"""
+    closed = True
+    if not terminates(ifnode.body):
+        ifnode.body.append(copy.deepcopy(ret))
+    if not ifnode.orelse:
+        return False
+    if len(ifnode.orelse) == 1 and isinstance(ifnode.orelse[0], ast.If):
+        if not _dup_tail_return(ifnode.orelse[0], ret):
+            ifnode.orelse.append(copy.deepcopy(ret))
+    elif not terminates(ifnode.orelse):
+        ifnode.orelse.append(copy.deepcopy(ret))
+    return True
+
+
 def flatten_block(stmts):
+    # `if c: A / else: B` followed by the block's final `return T` is `if c: A; return T` / `B; return T`: merged exits and early returns are
+    # one shape (the shape with the returns in the branches, which else-elimination below then flattens)
+    if len(stmts) >= 2 and isinstance(stmts[-1], ast.Return) and isinstance(stmts[-2], ast.If) and stmts[-2].orelse and not terminates([stmts[-2]]) \
+            and (stmts[-1].value is None or isinstance(stmts[-1].value, (ast.Name, ast.Constant, ast.Attribute))):
+        stmts = list(stmts)
+        if _dup_tail_return(stmts[-2], stmts[-1]):
+            stmts = stmts[:-1]
     out = []
     for s in stmts:
         for f in ('body', 'orelse', 'finalbody'):
@@ -807,6 +829,20 @@ def reshape_conditionals(fn, r, stats, key):
                             break
                 if done_:
                     continue
+            if isinstance(s, ast.Assign) and len(s.targets) == 1 and isinstance(s.targets[0], ast.Tuple) and isinstance(s.value, ast.Tuple) and surplus(s) \
+                    and len(s.targets[0].elts) == len(s.value.elts) and all(isinstance(t, ast.Name) for t in s.targets[0].elts) and not any(isinstance(v, ast.Starred) for v in s.value.elts):
+                # `a, b = x, y`  ==  `a = x` / `b = y` when no target is read by a later value (and `a = a` says nothing)
+                tg, vals = [t.id for t in s.targets[0].elts], s.value.elts
+                indep = len(set(tg)) == len(tg) and not any(tg[i_] in {n.id for n in ast.walk(vals[j_]) if isinstance(n, ast.Name)} for i_ in range(len(tg)) for j_ in range(i_ + 1, len(tg)))
+                if indep:
+                    parts = [ast.fix_missing_locations(ast.copy_location(ast.Assign(targets=[ast.copy_location(ast.Name(id=t, ctx=ast.Store()), s)], value=v), s))
+                             for t, v in zip(tg, vals) if not (isinstance(v, ast.Name) and v.id == t)]
+                    if parts and all(wanted(p_) for p_ in parts):
+                        swap([s], parts)
+                        out.extend(parts)
+                        changed[0] += 1
+                        i += 1
+                        continue
             if isinstance(s, ast.If) and surplus(s) and not s.orelse and len(s.body) == 1 and isinstance(s.body[0], ast.Continue) and i + 1 < len(stmts):
                 # `if c: continue` / rest   ==   `if not c: rest`   (and `if A: if B: X` == `if A and B: X`)
                 from .au import negate
@@ -840,7 +876,7 @@ def reshape_conditionals(fn, r, stats, key):
                                                    body=stmts[i + 1:], orelse=[]), s)
                 if wanted(flipped):
                     swap([s], [flipped])
-                    flipped.body = blk(flipped.body) if False else flipped.body
+                    flipped.body = blk(flipped.body)
                     out.append(flipped)
                     out.extend(s.body)
                     changed[0] += 1
@@ -872,6 +908,20 @@ def reshape_conditionals(fn, r, stats, key):
                     changed[0] += 1
                     i += 1
                     continue
+            if isinstance(s, ast.Return) and s.value is not None and not isinstance(s.value, (ast.Name, ast.Constant)) and surplus(s):
+                # `return E` where the reference names the result first: `T = E` / `return T`
+                tname = '__ret%d' % changed[0]
+                loc.add(tname)
+                pre = ast.fix_missing_locations(ast.copy_location(ast.Assign(targets=[ast.Name(id=tname, ctx=ast.Store())], value=s.value), s))
+                ret = ast.fix_missing_locations(ast.copy_location(ast.Return(value=ast.Name(id=tname, ctx=ast.Load())), s))
+                have_w = {d_ for d_, _ in r.get('wstmts', [])}
+                if (wanted(pre) or (dig(pre) in have_w and not cur[dig(pre)])) and (wanted(ret) or dig(ret) in have_w):       # the reference may reuse a spelling: web-split digests
+                    swap([s], [pre, ret])
+                    out.extend([pre, ret])
+                    changed[0] += 1
+                    i += 1
+                    continue
+                loc.discard(tname)
             if surplus(s) and _header(s) is not None:
                 # the truth value of a builtin list / tuple / dict / set IS "not empty": `not x` == `len(x) == 0`, `x` == `len(x) > 0` at the
                 # positions where mark_containers established what x holds; rewritten to the spelling the reference has
@@ -1356,8 +1406,7 @@ def coalesce_bound_copies(fn, ref_names, params):
 
 
 def _inline_new_temps(fn, ref_names, params, stats, key):
-    coalesce_copies(fn, ref_names, params)
-    coalesce_bound_copies(fn, ref_names, params)
+    coalesced = coalesce_copies(fn, ref_names, params) + coalesce_bound_copies(fn, ref_names, params)
     own = fn_scope_locals(fn)
     cand = [n for n in own if n.split('\x01')[0] not in ref_names and n not in params]
     done = 0
@@ -1498,7 +1547,7 @@ def _inline_new_temps(fn, ref_names, params, stats, key):
         progress = done > before_round
     if done and stats is not None:
         stats.append((key, 'inlined %d new temporaries' % done))
-    return done
+    return done + coalesced
 
 
 def _substitute_if_same_reaching(fn, block, idx, st, v, params):
@@ -1792,7 +1841,54 @@ def normalise_repo(trees, use_reference=True, stats=None):
                             n.col_offset = 0
     for tree in trees.values():
         _push_not_inwards(tree)
+        _drop_implied_tests(tree)
         link_siblings(tree)
+
+
+def _drop_implied_tests(tree):
+    """inside `if T:` - before anything T reads is rebound - a conditional expression on the same (effect-free) test T has only one live arm:
+    `if len(v) == 1: v = v * n if len(v) == 1 else v`  ==  `if len(v) == 1: v = v * n`  (typical after inlining a helper that re-tests)"""
+    from .au import N, negate
+    k = 0
+    for node in ast.walk(tree):
+        if not isinstance(node, ast.If) or not _pure(node.test):
+            continue
+        try:
+            t_pos, t_neg = N(node.test), N(negate(copy.deepcopy(node.test)))
+        except Exception:
+            continue
+        reads = {n.id for n in ast.walk(node.test) if isinstance(n, ast.Name)}
+        for st in node.body:
+            if isinstance(st, (ast.If, ast.For, ast.While, ast.Try, ast.With, ast.FunctionDef, ast.AsyncFunctionDef, ast.ClassDef)):
+                break
+            class R(ast.NodeTransformer):
+                def visit_IfExp(self, n):
+                    self.generic_visit(n)
+                    nonlocal k
+                    try:
+                        tt = N(n.test)
+                    except Exception:
+                        return n
+                    if tt == t_pos:
+                        k += 1
+                        return n.body
+                    if tt == t_neg:
+                        k += 1
+                        return n.orelse
+                    return n
+
+                def visit_Lambda(self, n):
+                    return n
+            if isinstance(st, (ast.Assign, ast.AugAssign, ast.Return, ast.Expr)) and st.value is not None:
+                st.value = R().visit(st.value)
+            stores = {n.id for n in ast.walk(st) if isinstance(n, ast.Name) and isinstance(n.ctx, (ast.Store, ast.Del))}
+            mut = any(isinstance(c, ast.Call) and isinstance(c.func, ast.Attribute) and c.func.attr in MUTATORS for c in ast.walk(st))
+            heap = any(isinstance(n, (ast.Subscript, ast.Attribute)) and isinstance(n.ctx, (ast.Store, ast.Del)) for n in ast.walk(st))
+            if stores & reads or mut or heap:
+                break
+    if k:
+        ast.fix_missing_locations(tree)
+    return k
 
 
 def _push_not_inwards(tree):
